@@ -293,6 +293,10 @@ pub struct MetricsSnap {
     pub ratio: f64,
     pub life_count: u64,
     pub life_bucket_sum: u64,
+    /// the other read-out surfaces of the same counters: (surface, field name, value) from
+    /// `Display` and from the serde serialisation
+    #[serde(default)]
+    pub readouts: Vec<(String, String, u64)>,
 }
 
 #[derive(Serialize, Deserialize, Clone, Debug)]
@@ -534,7 +538,31 @@ fn metrics_of(m: &stretto::Metrics) -> Option<MetricsSnap> {
         ratio: m.ratio().unwrap(),
         life_count,
         life_bucket_sum,
+        readouts: readouts_of(m),
     })
+}
+
+/// `Display` prints one `"name": value,` line per counter; the serde serialisation is a map.
+fn readouts_of(m: &stretto::Metrics) -> Vec<(String, String, u64)> {
+    let mut out = Vec::new();
+    for l in format!("{}", m).lines() {
+        let l = l.trim().trim_end_matches(',');
+        if let Some((name, val)) = l.split_once(": ") {
+            if let Ok(v) = val.trim().parse::<u64>() {
+                out.push(("display".to_string(), name.trim_matches('"').to_string(), v));
+            }
+        }
+    }
+    if let stretto::Metrics::Op(inner) = m {
+        if let Ok(serde_json::Value::Object(map)) = serde_json::to_value(inner) {
+            for (k, v) in map {
+                if let Some(n) = v.as_u64() {
+                    out.push(("serde".to_string(), k, n));
+                }
+            }
+        }
+    }
+    out
 }
 
 fn parse_hist(s: &str) -> (u64, u64) {
@@ -621,6 +649,11 @@ pub fn bo<F: std::future::Future>(f: F) -> F::Output {
     } else {
         rt::block_on(f)
     }
+}
+
+thread_local! {
+    /// key of the lookup this client is executing (whose reference it may be holding)
+    static CUR_LOOKUP_KEY: std::cell::Cell<Option<u64>> = std::cell::Cell::new(None);
 }
 
 thread_local! {
@@ -878,7 +911,10 @@ mod async_impl {
             }
         }
         fn close(&self) -> Result<(), String> {
-            bo(SelfTy::close(self)).map_err(|e| e.to_string())
+            match bo_c(SelfTy::close(self)) {
+                Some(r) => r.map_err(|e| e.to_string()),
+                None => Err(CANCELLED.into()),
+            }
         }
         fn clone_box(&self) -> Box<dyn Api> {
             Box::new(self.clone())
@@ -1408,11 +1444,13 @@ pub fn do_op(api: &dyn Api, client: usize, idx: usize, op: &Op) {
             Err(e) => Res::Err(e),
         },
         Op::Get { k, hold } => {
+            CUR_LOOKUP_KEY.with(|c| c.set(Some(*k)));
             let r = api.get(*k, *hold);
             HOLD_ACTION.with(|h| h.borrow_mut().take());
             Res::Got(r)
         }
         Op::GetMut { k, hold, .. } => {
+            CUR_LOOKUP_KEY.with(|c| c.set(Some(*k)));
             let r = api.get_mut(*k, val, *hold);
             HOLD_ACTION.with(|h| h.borrow_mut().take());
             Res::GotMut(r)
@@ -1502,10 +1540,18 @@ pub fn do_op(api: &dyn Api, client: usize, idx: usize, op: &Op) {
             let a = api.clone_box();
             let (what, v) = (*what, *v);
             let f: Box<dyn FnOnce()> = Box::new(move || {
+                if what >= 3 && CUR_LOOKUP_KEY.with(|c| c.get()).map_or(true, |held| held % 256 == (v as u64) % 256) {
+                    // same shard as the reference being held (a plan reshaped by the minimiser):
+                    // that would be the caller's own deadlock - skip
+                    return;
+                }
                 let inner = match what {
                     0 => Op::Close,
                     1 => Op::MaxCost,
-                    _ => Op::UpdateMaxCost { v },
+                    2 => Op::UpdateMaxCost { v },
+                    // a key of another shard
+                    3 => Op::InsertIfPresent { k: v as u64, cost: 1, size: 1 },
+                    _ => Op::GetTtl { k: v as u64 },
                 };
                 do_op(a.as_ref(), client, idx + 50_000, &inner);
             });
